@@ -69,6 +69,9 @@ pub struct Prog {
     pub term: Term,
     /// crash point: panic at entry of stage `cs` (99 = terminal closure, 98 = reduce operator)
     /// on the element with key `ck`; cs = -1 means none
+    /// source length; 0 = len(input). If larger, position i carries input[i % len(input)] ("big" programs)
+    #[serde(default)]
+    pub n: u64,
     #[serde(default = "neg1")]
     pub cs: i32,
     #[serde(default)]
@@ -133,6 +136,18 @@ pub fn trans(ty: Ty, k: &str) -> (Ty, bool) {
 }
 
 impl Prog {
+    pub fn len(&self) -> usize {
+        if self.n as usize > self.input.len() {
+            self.n as usize
+        } else {
+            self.input.len()
+        }
+    }
+
+    pub fn is_big(&self) -> bool {
+        self.n as usize > self.input.len()
+    }
+
     /// Transformation ops (stages) in order, 1-based stage number = index + 1.
     pub fn stages(&self) -> Vec<&Op> {
         self.ops.iter().filter(|o| is_stage(&o.k)).collect()
